@@ -34,15 +34,36 @@ def strip_join_order(o: Dict[str, Any]) -> Any:
     if "plan" not in o:
         return o
     out = []
-    for st in o["plan"]:
-        if st[0] == "join":
-            out.append(st[:-1] + [sorted(set(r for r in st[-1] if not r.startswith("join:")))])
+    for lab, reqs, res in o["plan"]:
+        if lab.startswith("join:"):
+            out.append([lab, [r for r in reqs if not r.startswith("join:")], res])
         else:
-            out.append(st)
+            out.append([lab, reqs, res])
+    return sorted(out, key=lambda x: json.dumps(x))
+
+
+def strip_tfs_producer(o: Dict[str, Any]) -> Any:
+    """The plan with 'which producer step a transform step waits for' removed (input class of the single-TFS finding)."""
+    if "plan" not in o:
+        return o
+
+    def cut(lab: str) -> str:
+        return re.sub(r"(tfs:[A-Za-z]+>[A-Za-z]+):\[.*\]$", r"\1", lab)
+
+    out = []
+    for lab, reqs, res in o["plan"]:
+        if lab.startswith("tfs:"):
+            out.append([cut(lab), [], res])
+        else:
+            out.append([lab, sorted({cut(r) for r in reqs}), res])
     return sorted(out, key=lambda x: json.dumps(x))
 
 
 def join_order_class(spec: Dict[str, Any], a: Dict[str, Any], b: Dict[str, Any]) -> Optional[str]:
+    if len(spec.get("sources", [])) >= 3 and len({x["fw"] for x in spec["sources"]} | {spec["consumer"]["fw"]}) >= 2:
+        return "three-sources-across-frameworks"
+    if "groups" in spec and "plan" in a and "plan" in b and strip_tfs_producer(a) == strip_tfs_producer(b):
+        return "tfs-required-producer-varies"
     if len(spec.get("links", [])) >= 2 and "plan" in a and "plan" in b and strip_join_order(a) == strip_join_order(b):
         return "multi-link-join-order-varies"
     return None
@@ -101,7 +122,7 @@ def run(ctx: Ctx) -> None:
         outs = [outcome_of(spec) for _ in range(nprep)]
         results.append(outs)
         first = pub(outs[0])
-        kinds = [s[0] for s in first.get("plan", [])]
+        kinds = [s[0].split(":")[0] for s in first.get("plan", [])]
         nontriv = ("join" in kinds) or ("tfs" in kinds) or kinds.count("fg") >= 3
         ctx.case("prepare", {"spec": spec, "outcome": "plan" if "plan" in first else first}, nontriv,
                  outcome="plan" if "plan" in first else "rejected:" + first.get("rejected", "?"), joins=kinds.count("join"), tfs=kinds.count("tfs"))  # fmt: skip
